@@ -165,7 +165,7 @@ def check(pid, tier, seed):
         rewrites += r.rewrites
         for t in r.trusted:
             trusted.append("%s: %s" % (u, t["text"]))
-        solver.append({"unit": u, "wall_s": round(r.wall_s, 2), "smt_ms": r.smt_ms,
+        solver.append({"unit": u, "wall_s": round(r.wall_s, 2), "smt_ms": r.smt_ms, "proof_hints_dropped_and_reverified": getattr(r, "dropped_hints", 0),
                        "functions": [{"fn": f.get("function"), "ms": f.get("time"), "rlimit": f.get("rlimit"), "ok": f.get("success")} for f in r.functions]})
     if kres is not None:
         fns += kres.get("functions", [])
@@ -188,6 +188,7 @@ def check(pid, tier, seed):
             "declared_rewrites": rewrites,
             "solver": solver,
             "bounded": (kres or {}).get("bounded", []),
+            "unexplored_thorough_harnesses": (kres or {}).get("unexplored", []),
             "known_findings_hit": [f["obligation"] for f, _ in known_hits],
             "undecided": undecided,
             "vacuity_pass": vac,
@@ -218,6 +219,8 @@ def check(pid, tier, seed):
         for u in undecided:
             print("UNDECIDED property=%s %s" % (pid, u))
         rc = 2
+    for ux in (kres or {}).get("unexplored", []):
+        print("NOT-EXPLORED property=%s thorough-only harness %s gave no verdict within the cap (not counted, not an alarm)" % (pid, ux["harness"]))
     print("%s: %d obligations, %d discharged, %d known findings, %d violations, %.1fs [%s]" % (
         pid, n_obl, n_dis, len(known_hits), len(violations), time.time() - t0, tier))
     return rc
